@@ -518,6 +518,9 @@ def run(repo, rep):
     rep.rule('C05.G7', 'events reach the machine in wire order: complete PDUs already buffered are framed before the socket is '
              'polled again, so neither a transport close (Evt17) nor later data overtakes them', 1)
     rep.rule('C05.G6', 'loop polls network, outgoing queue, timer in that order; one event popped and one action run per iteration', 1)
+    rep.rule('C05.G8', 'the timer is polled: no producer blocks without a bound on any path, so an iteration of the loop ends and ARTIM '
+             'expiry becomes Evt18 while the machine waits in Sta2 / Sta13 (a read the poll does not vouch for waits for the peer, '
+             'which is what the timer is there to bound)', 1)
     check_maps(repo, model, rep)
     for tname in ('PDU_TYPES', 'PDU_TO_EVENT'):
         w = repo.table_writers('dulprovider', tname)
@@ -530,3 +533,13 @@ def run(repo, rep):
     check_recv_guard(pm, rep)
     check_loop_order(pm, rep)
     check_wire_order(pm, rep)
+    from ..provider_model import PRODUCERS, blocking_problems, make_raises, pdu_decode_raise_set
+    finals_, blog_ = [], []
+    for name in PRODUCERS:
+        f_, l_ = pm.paths_and_log(name, raises_of=make_raises(repo, pdu_decode_raise_set(repo)))
+        finals_.extend(f_)
+        blog_.extend(l_)
+    probs_ = blocking_problems(finals_, blog_)
+    rep.check(not probs_, 'C05.G8', 'dulprovider:DULServiceProvider:timer-polled', pm.cls.loc(),
+              'every read / poll / queue get on %d producer paths is bounded: each iteration reaches the timer poll' % len(finals_),
+              '; '.join(probs_))
